@@ -138,6 +138,31 @@ def lib_delegating(tag: str, fn, *args, **kwargs):
         raise
 
 
+def gzip_handle(fh, limit: int = 4 << 20):
+    """The content of an in-memory image behind gzip.open() on a real file: a handle whose fileno() exists but belongs to other
+    bytes (the compressed file), that cannot seek from the end and whose reads are a stream.  -> (handle, cleanup) or (None, None)
+    when the image is too large to materialise."""
+    import gzip
+    import shutil
+    import tempfile
+
+    if fh.size > limit:
+        return None, None
+    d = tempfile.mkdtemp(prefix="gz-", dir="/dev/shm" if os.path.isdir("/dev/shm") else None)
+    path = os.path.join(d, "image.gz")
+    with gzip.open(path, "wb", compresslevel=1) as f:
+        f.write(fh.materialize(limit))
+    h = gzip.open(path, "rb")
+
+    def cleanup():
+        try:
+            h.close()
+        finally:
+            shutil.rmtree(d, ignore_errors=True)
+
+    return h, cleanup
+
+
 def first_diff(a: bytes, b: bytes) -> int:
     n = min(len(a), len(b))
     if a[:n] == b[:n]:
